@@ -34,7 +34,7 @@ Q = 4                       # model time unit = 1/Q second
 MON = {'c': 100, 'u': 101, 'd': 102}      # the three monitor callbacks (one per event, registered once)
 MON_OPS = [['A', 'c', 100], ['A', 'u', 101], ['A', 'd', 102]]
 MMSIS = [227006760, 205448890, 786434, 1, 999999999, 366053209, 0]       # incl. the smallest (0: falsy) and the largest MMSI
-BASES = [0, 1673259264]
+BASES = [0, 1673259264, 1673259264000]      # a zero-based clock, epoch seconds, epoch MILLIseconds (a caller may stamp in any unit; 2^40 < 1.67e12 < 2^41: the 1/4096 s grid is still exact)
 
 _real_time = _time.time
 # exception classes a callback of the harness may raise (all are classes of Prim/Exn.v; IndexError is a LookupError like
